@@ -664,7 +664,14 @@ func (g *Gen) node(s *Scope, c ctx) *Node {
 		n.Body = sub()
 		kn := g.name("k")
 		n.Key = kn
-		n.Body.Items = append(n.Body.Items, &Item{Node: &Node{Kind: "leaf", Name: kn, Type: &TypeRef{Name: "string", Scope: n.Body}}})
+		keyLeaf := &Node{Kind: "leaf", Name: kn, Type: &TypeRef{Name: "string", Scope: n.Body}}
+		if !c.inRPC && g.pick(6) == 0 {
+			// a key leaf with a config statement of its own (RFC 7950 wants it to agree with
+			// the list's; goyang does not check, and the leaf's own statement is what counts)
+			v := g.pick(2) == 0
+			keyLeaf.Config = &v
+		}
+		n.Body.Items = append(n.Body.Items, &Item{Node: keyLeaf})
 		g.fillScope(n.Body, ctx{inRPC: c.inRPC, depth: c.depth + 1, inGroup: c.inGroup, pk: "list"}, 2)
 		if g.pick(3) == 0 {
 			v := uint64(1 + g.pick(3))
@@ -712,6 +719,11 @@ func (g *Gen) Build() {
 	for i := 0; i < nm; i++ {
 		name := g.name("m")
 		m := &Mod{Name: name, Prefix: g.name("p"), NS: "urn:" + name}
+		if i == 1 && g.pick(8) == 0 {
+			// two namespaces that differ in nothing but the case of a letter are two namespaces
+			mods[0].NS = "urn:ns:Shared"
+			m.NS = "urn:ns:shared"
+		}
 		if len(mods) > 0 && g.pick(4) == 0 {
 			m.Prefix = mods[0].Prefix // modules may declare the same prefix for themselves
 		}
